@@ -212,6 +212,37 @@ class Bytes:
         self.cells[self.off * 8 + i] = c
 
 
+class ByteRef:
+    """&mut section_bytes[i]"""
+    def __init__(self, buf, i):
+        self.buf, self.i = buf, i
+
+    def get(self):
+        return BV([self.buf.bit(self.i * 8 + j) for j in range(8)])
+
+    def set(self, v):
+        if not isinstance(v, BV):
+            v = BV.const(v & 0xff, 8)
+        for j in range(8):
+            self.buf.set_bit(self.i * 8 + j, v.cells[j] if j < v.w else C0)
+
+
+class Cell:
+    """&mut scalar"""
+    def __init__(self, v):
+        self.v = v
+
+    def get(self):
+        return self.v
+
+    def set(self, v):
+        self.v = v
+
+
+def deref(x):
+    return x.get() if isinstance(x, (ByteRef, Cell)) else x
+
+
 class SymEval:
     def __init__(self, facts, folder):
         self.F = facts
@@ -285,7 +316,8 @@ class SymEval:
         if k == "un":
             a = self.ev(e["a"], env, depth + 1)
             if e["op"] == "*":
-                return a
+                return deref(a)
+            a = deref(a)
             if e["op"] == "!":
                 if isinstance(a, BV):
                     return BV([c_not(c) for c in a.cells], a.signed)
@@ -322,16 +354,16 @@ class SymEval:
                         return True
                     return self.ev(e["b"], env, depth + 1)
                 raise FoldError("symbolic short-circuit")
-            a = self.ev(e["a"], env, depth + 1)
-            b = self.ev(e["b"], env, depth + 1)
+            a = deref(self.ev(e["a"], env, depth + 1))
+            b = deref(self.ev(e["b"], env, depth + 1))
             return self.binop(op, a, b)
         if k == "assign":
             v = self.ev(e["b"], env, depth + 1)
             self.assign(e["a"], v, env, depth)
             return ()
         if k == "assignop":
-            cur = self.ev(e["a"], env, depth + 1)
-            v = self.ev(e["b"], env, depth + 1)
+            cur = deref(self.ev(e["a"], env, depth + 1))
+            v = deref(self.ev(e["b"], env, depth + 1))
             self.assign(e["a"], self.binop(e["op"].rstrip("=") if e["op"].endswith("=") else e["op"], cur, v), env, depth)
             return ()
         if k == "block":
@@ -402,7 +434,7 @@ class SymEval:
                     f = i.fields or {}
                     return a.view(f.get("start", 0) or 0, f.get("end"))
                 if isinstance(i, int):
-                    return BV([a.bit(i * 8 + j) for j in range(8)])
+                    return ByteRef(a, i)
             if isinstance(a, BV) and isinstance(i, Enum):
                 f = i.fields or {}
                 st = (f.get("start") or 0) * 8
@@ -433,11 +465,23 @@ class SymEval:
         raise FoldError(f"sym expr {k}")
 
     def assign(self, lhs, v, env, depth):
+        v = deref(v)
         if lhs["e"] == "path" and lhs.get("res") == "Local":
+            cur = env.get(lhs["id"])
             env[lhs["id"]] = v
             return
         if lhs["e"] == "un" and lhs["op"] == "*":
+            tgt = self.ev(lhs["a"], env, depth + 1)
+            if isinstance(tgt, (ByteRef, Cell)):
+                tgt.set(v)
+                return
             return self.assign(lhs["a"], v, env, depth)
+        if lhs["e"] == "index":
+            a = self.ev(lhs["a"], env, depth + 1)
+            i = self.ev(lhs["i"], env, depth + 1)
+            if isinstance(a, Bytes) and isinstance(i, int):
+                ByteRef(a, i).set(v)
+                return
         raise FoldError("assign target")
 
     def binop(self, op, a, b):
@@ -524,6 +568,18 @@ class SymEval:
         name = e["name"]
         d = norm_path(e.get("def") or "")
         rt = e.get("recv_ty", "").lstrip("&")
+        if name == "copy_from_slice" and isinstance(recv, Bytes):
+            src = args[0]
+            if isinstance(src, list):
+                for i, x in enumerate(src):
+                    ByteRef(recv, i).set(deref(x))
+                return ()
+            raise FoldError("copy_from_slice source")
+        if name == "get" and isinstance(recv, Bytes):
+            i = args[0]
+            if isinstance(i, int):
+                return Enum("std::option::Option::Some", [ByteRef(recv, i)])
+        recv = deref(recv)
         if name == "to_le_bytes":
             if isinstance(recv, BV):
                 return recv
